@@ -132,27 +132,27 @@ def run(tier, seed, replay=None):
             mv = model_analyze(model, cfg_slash, text, cwd)
             if mv != v_exec:
                 out.disagreements.append({"correspondence": "Walker.analyze_nodes <-> analyzer.analyze", "program": text, "model": mv, "impl": v_exec})
-    # (a") the delegated mode reaches every position inside the inner command: a redirection to a local path that no
-    # rule grants is not a local-path matter in the container, wherever in a compound it stands - the nested shell with
-    # COMPOUND(ls > nogrant) is judged like the nested shell with  ls > nogrant
+    # (a") compound inner commands: a nested shell whose text has a redirect / a command at every evaluation position is
+    # judged inside the container exactly as the same nested shell is judged locally (Dippy analyses the text of a
+    # nested shell in local mode: stricter than the property needs, and equal to the local verdict)
     from . import bashgen_ext as bx
     for e in execs[::3]:
-        base = verdict(f"{e} sh -c 'ls > nogrant'")
         for pos, tmpl in bx.EXEC_POSITIONS:
-            if "{Xq}" in tmpl or "'" in tmpl:
-                continue
-            inner = bx.fill(tmpl, "ls > nogrant")
-            if "'" in inner:
-                continue
-            text = f"{e} sh -c '{inner}'"
-            local = verdict(inner.replace("> nogrant", ""))      # the same compound without the redirect, judged locally
-            v = verdict(text)
-            out.case(["remote-position", text])
-            out.count("shape", "remote-everywhere")
-            if local == "allow" and base == "allow" and v != "allow":
-                out.violations.append({"kind": "remote-lost", "what": f"{text!r} is judged {v}: the local-path check of the redirect was applied inside the container at position {pos}",
-                                       "program": text, "config": CFG, "signature_text": text})
-            correspond(text)
+            for x in ("ls > nogrant", "rm x", "zap"):
+                if "{Xq}" in tmpl or "'" in tmpl:
+                    continue
+                inner = bx.fill(tmpl, x)
+                if "'" in inner:
+                    continue
+                text = f"{e} sh -c '{inner}'"
+                v, local = verdict(text), verdict(f"sh -c '{inner}'")
+                out.case(["remote-position", text])
+                out.count("shape", "compound-inner")
+                if v != local:
+                    out.violations.append({"kind": "inner-differs", "what": f"{text!r} is judged {v} but the nested shell alone {local} (position {pos})",
+                                           "program": text, "config": CFG, "signature_text": text})
+                if out.evaluations % 5 == 0:
+                    correspond(text)
     # (b) only path checks are relaxed
     for e, (pathy, plain) in itertools.product(execs, INNER_PATHY):
         text = f"{e} {pathy}"
